@@ -23,6 +23,10 @@ def run(rep: Report, repo: Repo, tier: str) -> None:
     # a documented command produces its entry whatever the switches say: it is rejected only for its own arity
     with rep.isolated():
         protocol.rule_rejections(rep, repo, "C08-R6")
+    # what an entry shows is a function of its own command (+ doc): no element (a macro note on a test, ...) that the
+    # switch-dependent hand-off between commands could switch on or off
+    with rep.isolated():
+        render.rule_kind_rendering(rep, repo, "C08-R7")
     if tier == "thorough":
         from . import trace_rules
         with rep.isolated():
